@@ -250,7 +250,10 @@ def run(ctx):
     ctx.model_check("Stencil", dict(spec="Spec", invariants=INV_LOC, properties=PROPS,
                                     constants=mc_consts(3, 4, lv, [1, 1], [1, 1])), "locality_3x4")
     ctx.model_check("Stencil", dict(spec="Spec", invariants=INV_LOC, properties=PROPS,
-                                    constants=mc_consts(4, 3, lv, [1, 1], [3, 1])), "locality_4x3")
+                                    constants=mc_consts(4, 3, "{0, NAN}", [1, 1], [3, 1])), "locality_4x3_nan")
+    if thorough:
+        ctx.model_check("Stencil", dict(spec="Spec", invariants=INV_LOC, properties=PROPS,
+                                        constants=mc_consts(4, 3, "{0, 1}", [1, 1], [3, 1])), "locality_4x3_finite")
     ctx.model_check("Stencil", dict(spec="Spec", invariants=INV if not thorough else INV_LOC, properties=PROPS,
                                     constants=mc_consts(3, 4, "{0, 1}", [1, 1], [1, 1])), "locality_3x4_finite")
     if thorough:
